@@ -79,7 +79,7 @@ def spell(key, how):
     return {"plain": key, "upper": key.upper(), "padded": "  " + key.capitalize() + " "}[how]
 
 
-def overrides(tree, path, value, spelling, form, devmode):
+def overrides(tree, path, value, spelling, form, devmode, silent=None):
     parts = path.split(".")
     kw = {spell(parts[-1], spelling): value}
     for p in reversed(parts[:-1]):
@@ -89,8 +89,11 @@ def overrides(tree, path, value, spelling, form, devmode):
         base = build(tree, None).settings
         nested_cls = type(getattr(base, parts[0]))
         kw = {parts[0]: nested_cls(**kw[parts[0]])}
+    if silent is None:
+        silent = devmode
     if devmode:
         kw["developer_mode"] = True
+    if silent:
         kw["silent_developer_mode"] = True
     return kw
 
@@ -108,7 +111,7 @@ def realise(cin, variant):
             raw = {"def": f["def"], "alt": f["alt"], "bad": f["bad"]}[cin["choice"]]
             value = json.loads(raw)
             try:
-                kw = overrides(cin["tree"], f["path"], value, cin["spelling"], cin["form"], cin["devmode"])
+                kw = overrides(cin["tree"], f["path"], value, cin["spelling"], cin["form"], cin["devmode"], cin.get("silent"))
                 m = build(cin["tree"], kw)
             except Exception as ex:
                 out["res"] = "rejected"
